@@ -1,7 +1,6 @@
 package c20
 
 import (
-	"os"
 	"fmt"
 	"math"
 	"math/big"
@@ -578,23 +577,12 @@ func runBR(c *eng.Ctx, d brDesc) {
 			c.Distinct(key, meaningful)
 			if meaningful {
 				c.Count("meaningful_bounds", 1)
-				c.Max("max_br_noise_over_bound_x1000", int64(1000*f64(st.Max)/bound))
-			}
-			c.Max("max_br_noise_log2_x10", int64(10*st.MaxLog2))
-			yv := ys[s]
-			if os.Getenv("C20DBG") != "" {
-				best, bestv := -1, 1e300
-				for kx := 0; kx < 2*NBR; kx++ {
-					w2 := rqBR.NewPoly()
-					for u := 0; u <= lqBR; u++ {
-						copy(w2.Coeffs[u], ref.MonomialMul(t.F.Coeffs[u], kx, d.BR.Q[u]))
-					}
-					if v := f64(obs.Stat(obs.Diff(rqBR, ph, w2)).Max); v < bestv {
-						best, bestv = kx, v
-					}
+				if f64(st.Max) <= bound {
+					c.Max("max_passing_br_noise_over_bound_x1000/"+eBR.epPath(lqBR, lp)+fmt.Sprintf("/w%d/%s", w, d.BR.Xs), int64(1000*f64(st.Max)/bound))
 				}
-				fmt.Fprintf(os.Stderr, "ct %d kind %s slot %d f=%s model k=%d kreal=%.2f best k=%d (noise 2^%.1f) modelnoise 2^%.1f thr 2^%.1f\n", ci, kind, s, t.name, kk, kreal, best, math.Log2(bestv+1), st.MaxLog2, math.Log2(thr))
 			}
+			c.Count("br_results_judged", 1)
+			yv := ys[s]
 			pathc := eBR.epPathSig(lqBR, lp, w)
 			modelSig := "C20|blindrot.Evaluator.Evaluate|differs-from-rotation-model|" + pathc
 			windowSig := "C20|blindrot.Evaluator.Evaluate|result-outside-drift-window"
@@ -659,6 +647,9 @@ func runBR(c *eng.Ctx, d brDesc) {
 			c.Eval(1)
 		}
 	}
+	if d.Kind == "grid" && d.SlotMode == "all" && d.NCts*NLWE >= NBR+1 {
+		c.Count("br_cases_covering_every_grid_point", 1)
+	}
 	if d.Kind == "crafted" || d.Kind == "mixed" && d.NCts >= 4 {
 		if NBR >= 128 && NLWE >= 16 {
 			var unused []uint64
@@ -681,5 +672,3 @@ func diffConst(r *ring.Ring, p ring.Poly) *big.Int {
 	crt := ref.NewCRT(r.ModuliChain()[:level+1])
 	return crt.Centered(crt.Column(p.Coeffs, 0))
 }
-
-var _ = eng.Pick[int]
